@@ -72,7 +72,7 @@ static void src_priv_dtor(void *data) {
     ev_src_t *t = (ev_src_t *)data;
 
     /* If a fd is deregistered for a RUNNING module, stop polling on it */
-    if (m_mod_is(t->mod, M_MOD_RUNNING)) {
+    if (t->ev && m_mod_is(t->mod, M_MOD_RUNNING)) { // t->ev: still polled (the owner may be gone otherwise)
         M_MOD_CTX(t->mod);
         poll_set_new_evt(&c->ppriv, t, RM);
     }
